@@ -223,7 +223,8 @@ C19_Q = [
     H("w19_eof", "one Writer::write_event(eof) from an arbitrary indentation state (should_line_break, depth<=200, indent char, width 0..9) vs the plain writer, through a recording sink", [], cost=1),
     H("w19_start_grow", "same, Start, indent buffer of 128 and depth 110..128: growth past the preallocation", ["indent buffer grown past the preallocation"], cost=2),
     H("w19_end_grow", "same, End", [], cost=2),
-    H("w19_two_starts_grow", "two Start events in a row from depth 120..128 with a 128-byte indent buffer, then a Comment", ["indent buffer grown twice"], cost=2),
+    H("w19_two_starts_c124", "two Start events in a row from depth 124 with a 128-byte indent buffer (width 0..9 symbolic), then a Comment", ["indent buffer grown twice"], cost=2),
+    H("w19_two_starts_c128", "same from depth 128", ["indent buffer grown twice"], cost=2),
     H("w19_comment_grow", "same, Comment", [], cost=2),
 ]
 C08_W = [
